@@ -68,3 +68,24 @@ package activejobstore
 //@   modifies smHas, smVal, heap(utilatomic.counterNode)
 //@   ensures [C05] stwf(s)
 //@   ensures [C05] delete-delta: forall k string :: active(s, k) == ((hasKey(rj) && k == keyOf(rj) && job.IsActive(rj)) ? old(active(s, k)) - 1 : old(active(s, k)))
+
+// ---- recovery after a restart (C05): the counters are rebuilt from the Job cache ------------------------------------------------
+// the informer of the store and the cache-sync wait run goroutines: ASSUMED to have no effect on the counters
+//@ extern func InformerWorker.Start
+//@   params w, stopCh
+//@ extern func github.com/furiko-io/furiko/pkg/runtime/controllerutil.WaitForNamedCacheSyncWithTimeout
+//@   params ctx, name, timeout, synced
+//@ extern func iface context.Context.Done
+//@   params recv
+// number of the first n cached Jobs that are active and labelled with JobConfig UID k
+//@ pure cntAct(n int, k string) Int = n <= 0 ? 0 : cntAct(n - 1, k) + ((hasKey(allJobsCachedAt(n - 1)) && keyOf(allJobsCachedAt(n - 1)) == k && job.IsActive(allJobsCachedAt(n - 1))) ? 1 : 0)
+
+//@ func Store.Recover
+//@   tags C05
+//@   requires stwf(s)
+//@   modifies smHas, smVal, heap(utilatomic.counterNode), s.recovered
+//@   loop 1 invariant -1 <= rangeindex && rangeindex < len(jobs) && stwf(s) && len(jobs) == allJobsCachedN()
+//@   loop 1 invariant forall i int :: {jobs[i]} 0 <= i && i < len(jobs) ==> jobs[i] == allJobsCachedAt(i) && jobs[i] != nil
+//@   loop 1 invariant forall k string :: active(s, k) == old(active(s, k)) + cntAct(rangeindex + 1, k)
+//@   ensures [C05] recovery-only-once: old(s.recovered) ==> result != nil && (forall k string :: active(s, k) == old(active(s, k)))
+//@   ensures [C05] counters-rebuilt-from-the-job-cache: result == nil ==> stwf(s) && s.recovered && (forall k string :: active(s, k) == old(active(s, k)) + cntAct(allJobsCachedN(), k))
